@@ -409,6 +409,47 @@ pub fn one_run(rng: &mut Rng, large: bool, layout: u64) -> Vec<Value> {
             Err(p) => ev.push(json!({"e": "ReloadFailed", "why": p})),
         }
     }
+    // C19 / C13 on recorded ontologies: the classification of every term (when the ontology carries the documented
+    // defaults) and HpoSet operations on random subsets of up to 36 terms
+    if defaults {
+        let terms: Vec<Value> = order
+            .iter()
+            .filter_map(|id| ont.hpo(*id))
+            .map(|t| json!({"id": t.id().as_u32(), "is_modifier": t.is_modifier(), "categories": t.categories().iter().map(|c| c.as_u32()).collect::<Vec<_>>()}))
+            .collect();
+        ev.push(json!({"e": "Cats", "modifier": ont.modifier().iter().map(|c| c.as_u32()).collect::<Vec<_>>(),
+            "categories": ont.categories().iter().map(|c| c.as_u32()).collect::<Vec<_>>(), "terms": terms}));
+    }
+    for _ in 0..3 {
+        let k = rng.below(order.len().min(36) as u64 + 1) as usize;
+        let mut pool = order.clone();
+        rng.shuffle(&mut pool);
+        let mut g = hpo::term::HpoGroup::new();
+        for id in pool.iter().take(k) {
+            g.insert(*id);
+        }
+        let r = catch(|| {
+            let set = hpo::HpoSet::new(&ont, g.clone());
+            let ids = |s: &hpo::HpoSet| -> Vec<u32> { s.iter().map(|t| t.id().as_u32()).collect() };
+            let mut inplace = hpo::HpoSet::new(&ont, g.clone());
+            inplace.remove_modifier();
+            let genes = sorted(set.gene_ids().iter().map(|x| x.as_u32()));
+            let omim = sorted(set.omim_disease_ids().iter().map(|x| x.as_u32()));
+            let ic = set.information_content().ok();
+            let want = |n: usize, big_n: usize| -> f64 { if n == 0 || big_n == 0 { 0.0 } else { -((n as f64) / (big_n as f64)).ln() } };
+            let ic_bad = match ic {
+                Some(ic) => (ic.gene() as f64 - want(genes.len(), ont.genes().count())).abs() > 1e-5 || (ic.omim_disease() as f64 - want(omim.len(), ont.omim_diseases().count())).abs() > 1e-5,
+                None => true,
+            };
+            let cats: Vec<Value> = { let mut c: Vec<(u32, usize)> = set.categories().into_iter().map(|(k, v)| (k.as_u32(), v)).collect(); c.sort(); c.into_iter().map(|(k, v)| json!([k, v])).collect() };
+            json!({"e": "SetOp", "defaults": defaults, "set": ids(&set), "len": set.len(), "child": ids(&set.child_nodes()), "without_modifier": ids(&set.without_modifier()),
+                "remove_modifier": ids(&inplace), "gene": genes, "omim": omim, "orpha": sorted(set.orpha_disease_ids().iter().map(|x| x.as_u32())), "ic_bad": ic_bad, "cats": cats})
+        });
+        match r {
+            Ok(e) => ev.push(e),
+            Err(p) => ev.push(json!({"e": "SetOpPanicked", "why": p})),
+        }
+    }
     // pair queries on the built ontology: the structural results are validated by TLC (focus C04) against
     // HpoSetOps / HpoSim; the eight similarity formulas are evaluated here on exactly these observed
     // arguments and the terms' observed information content
